@@ -507,9 +507,6 @@ def gen_ranged_binding(r, nmax):
     return lpgen.LP(maxi, F(r.choice([0, 0, 3])), cols, rows, "ranged-binding")
 
 
-DEMO_EQTRANS = None
-
-
 def demo_eqtrans():
     # min 2x+3y, 2 <= x+y <= 10, -1 <= x-y <= 1, x, y free (the optimum binds the first row at its left-hand side)
     F = Fraction
@@ -538,7 +535,7 @@ def part_exact(ck, exe):
     htxt = ""
     for k in range(ne):
         q = r.random()
-        if k == 0:
+        if k == 0 and not os.environ.get("C04_NO_DEMO"):
             p = demo_eqtrans()
         elif q < 0.5:
             p = gen_ranged_binding(r, nmax)
